@@ -197,6 +197,45 @@ fn set_fixture() -> Result<&'static jbonsai::Engine, String> {
     .map_err(|e| e.clone())
 }
 
+/// The bundled voice with a FOURTH stream declared in its header (`AUX`, sharing every byte range
+/// with `LPF`; the data section is untouched): the format puts no bound on NUM_STREAMS, the engine
+/// synthesizes from the first three, and the per-stream settings cover index 3 as well.
+fn four_stream_fixture() -> Result<&'static jbonsai::Engine, String> {
+    static E: std::sync::OnceLock<Result<jbonsai::Engine, String>> = std::sync::OnceLock::new();
+    E.get_or_init(|| {
+        let bytes = crate::bundled::bundled_bytes();
+        let marker = b"[DATA]\n";
+        let at = bytes.windows(marker.len()).position(|w| w == marker).ok_or("no [DATA] marker")?;
+        let header = std::str::from_utf8(&bytes[..at]).map_err(|e| e.to_string())?;
+        let mut out = String::new();
+        for line in header.lines() {
+            if line.starts_with("NUM_STREAMS:") {
+                out.push_str("NUM_STREAMS:4\n");
+            } else if line.starts_with("STREAM_TYPE:") {
+                out.push_str(line);
+                out.push_str(",AUX\n");
+            } else {
+                out.push_str(line);
+                out.push('\n');
+                if line.contains("[LPF]") {
+                    out.push_str(&line.replace("[LPF]", "[AUX]"));
+                    out.push('\n');
+                }
+            }
+        }
+        let mut voice = out.into_bytes();
+        voice.extend_from_slice(&bytes[at..]);
+        let tmp = crate::voice::TempVoice(crate::voice::write_temp(&voice, "c20-4streams"));
+        let e = jbonsai::Engine::load(&[&tmp.0]).map_err(|e| e.to_string())?;
+        if e.voices.global_metadata().num_streams != 4 {
+            return Err("the four-stream fixture did not load with four streams".into());
+        }
+        Ok(e)
+    })
+    .as_ref()
+    .map_err(|e| e.clone())
+}
+
 pub struct SetterHistory;
 
 impl Prop for SetterHistory {
@@ -205,7 +244,7 @@ impl Prop for SetterHistory {
         "setter-history".into()
     }
     fn rule(&self) -> String {
-        "history of 0..24 operations: setter calls and clone / continue-on-clone / drop-copies operations (random order, stream index in range, arguments from {special values incl. 0,-0,subnormals,bounds +-ulp,+-1e300,MAX | uniform | log-uniform}) on a freshly loaded Condition; after every call all getters are compared with a reference model of the documented clamps; the empty history checks the defaults. Non-trivial: >= 1 call whose argument lies outside the documented range (clamp exercised) and >= 3 calls".into()
+        "history of 0..24 operations: setter calls and clone / continue-on-clone / drop-copies operations (random order, stream index in range, arguments from {special values incl. 0,-0,subnormals,bounds +-ulp,+-1e300,MAX | uniform | log-uniform}) on a freshly loaded Condition (bundled voice, an LSP fixture, the bundled voice three times in one set, the bundled voice with a fourth stream declared in its header); after every call all getters are compared with a reference model of the documented clamps; the empty history checks the defaults. Non-trivial: >= 1 call whose argument lies outside the documented range (clamp exercised) and >= 3 calls".into()
     }
     fn tape_len(&self, _: Tier) -> usize {
         96
@@ -215,7 +254,8 @@ impl Prop for SetterHistory {
     }
     fn decode(&self, t: &mut Tape, _: Tier) -> Case {
         let n = t.below(25);
-        let nstream = 3;
+        // stream indices 0..3; the check folds them into the range of the fixture's stream count
+        let nstream = 4;
         let ops: Vec<Op> = (0..n)
             .map(|_| match t.below(12) {
                 10 => {
@@ -236,10 +276,11 @@ impl Prop for SetterHistory {
             })
             .collect();
         Case {
-            voice: match t.weighted(&[9, 8, 3]) {
+            voice: match t.weighted(&[8, 7, 3, 3]) {
                 0 => "bundled".into(),
                 1 => "lsp-fixture".into(),
-                _ => "bundled-x3".into(),
+                2 => "bundled-x3".into(),
+                _ => "bundled-4-streams".into(),
             },
             ops,
         }
@@ -253,6 +294,11 @@ impl Prop for SetterHistory {
             }
         } else if c.voice == "bundled-x3" {
             match set_fixture() {
+                Ok(e) => e,
+                Err(e) => fail!("fixture-load", "{}", e),
+            }
+        } else if c.voice == "bundled-4-streams" {
+            match four_stream_fixture() {
                 Ok(e) => e,
                 Err(e) => fail!("fixture-load", "{}", e),
             }
@@ -304,11 +350,13 @@ impl Prop for SetterHistory {
                     model.volume_db = v;
                 }
                 Op::MsdThreshold(s, v) => {
+                    let s = s.min(n - 1);
                     cond.set_msd_threshold(s, v);
                     model.thr[s] = clamp_ref(v, 0.0, 1.0);
                     clamped += !(0.0..=1.0).contains(&v) as usize;
                 }
                 Op::GvWeight(s, v) => {
+                    let s = s.min(n - 1);
                     cond.set_gv_weight(s, v);
                     model.gvw[s] = if v < 0.0 { 0.0 } else { v };
                     clamped += (v < 0.0) as usize;
@@ -345,6 +393,7 @@ impl Prop for SetterHistory {
                 }
                 Op::DropCopies => kept.clear(),
                 Op::InterpolationWeights(slot, stream) => {
+                    let stream = stream.min(n - 1);
                     let nv = engine.voices.len();
                     let w = vec![1.0 / nv as f64; nv];
                     let iw = cond.get_interporation_weight_mut();
